@@ -3,8 +3,9 @@
    lognot}.go and of
    normalizenumber.go for fixnum / bignum / ratio operands.
    int64 arithmetic is written with its wrap-around; math/big is exact (Z, and Q as reduced n/d);
-   the places where the Go code writes its result INTO an operand are modelled: every operation
-   returns, next to its result, the values of its operands afterwards. *)
+   every operation returns, next to its result, the values of its operands afterwards (since the
+   repairs repo_fixes/C05-1..5 no operation writes into an operand any more: the math/big results
+   are fresh objects). *)
 From Coq Require Export List Bool ZArith Lia.
 Export ListNotations.
 Open Scope Z_scope.
@@ -52,8 +53,6 @@ Definition norm_kind (a b : val) : kind :=
 Definition as_int (v : val) : Z := match v with VFix z | VBig z => z | _ => 0 end.
 Definition as_num (v : val) : Z := match v with VFix z | VBig z => z | VRat n _ => n | _ => 0 end.
 Definition as_den (v : val) : Z := match v with VRat _ d => d | _ => 1 end.
-Definition is_big (v : val) : bool := match v with VBig _ => true | _ => false end.
-Definition is_rat (v : val) : bool := match v with VRat _ _ => true | _ => false end.
 
 (* ---- + and * : the accumulator starts as a fixnum and is always a fresh object ---- *)
 Definition add2 (acc a : val) : val :=
@@ -73,49 +72,43 @@ Definition mul2 (acc a : val) : val :=
 Definition m_add (args : list val) : out := {| o_res := RVal (fold_left add2 args (VFix 0)); o_args := args |}.
 Definition m_mul (args : list val) : out := {| o_res := RVal (fold_left mul2 args (VFix 1)); o_args := args |}.
 
-(* ---- - : the accumulator IS the first operand; bignum and ratio results are written into it ---- *)
-Definition neg1 (a : val) : out :=
+(* ---- - : the accumulator starts as the first operand; every bignum / ratio result is a fresh object
+   (z.Sub / z.Neg into a new big.Int / big.Rat) ---- *)
+Definition neg1 (a : val) : val :=
   match a with
-  | VFix z => {| o_res := RVal (VFix (wrap64 (- z))); o_args := [a] |}
-  | VBig z => {| o_res := RVal (VBig (- z)); o_args := [VBig (- z)] |}          (* Neg into the operand *)
-  | VRat n d => {| o_res := RVal (VRat (- n) d); o_args := [VRat (- n) d] |}    (* Neg into the operand *)
-  | VInexact => {| o_res := RVal VInexact; o_args := [a] |}
+  | VFix z => VFix (wrap64 (- z))
+  | VBig z => VBig (- z)
+  | VRat n d => VRat (- n) d
+  | VInexact => VInexact
   end.
-(* one step: (dif, whether dif still is operand 0, what operand 0 holds now) *)
-Definition sub2 (st : val * bool * val) (a : val) : val * bool * val :=
-  let '(dif, alias, op0) := st in
+Definition sub2 (dif a : val) : val :=
   match norm_kind a dif with
-  | KFix => (VFix (wrap64 (as_int dif - as_int a)), false, op0)
-  | KBig => let r := VBig (as_int dif - as_int a) in
-            let al := alias && is_big dif in (r, al, if al then r else op0)
-  | KRat => let r := mkrat (as_num dif * as_den a - as_num a * as_den dif) (as_den a * as_den dif) in
-            let al := alias && is_rat dif in (r, al, if al then r else op0)
-  | KInexact => (VInexact, false, op0)
+  | KFix => VFix (wrap64 (as_int dif - as_int a))
+  | KBig => VBig (as_int dif - as_int a)
+  | KRat => mkrat (as_num dif * as_den a - as_num a * as_den dif) (as_den a * as_den dif)
+  | KInexact => VInexact
   end.
 Definition m_sub (args : list val) : out :=
   match args with
   | [] => {| o_res := RCond CArith; o_args := [] |}
-  | [a] => neg1 a
-  | a :: rest =>
-      let '(dif, _, op0) := fold_left sub2 rest (a, true, a) in
-      {| o_res := RVal dif; o_args := op0 :: rest |}
+  | [a] => {| o_res := RVal (neg1 a); o_args := args |}
+  | a :: rest => {| o_res := RVal (fold_left sub2 rest a); o_args := args |}
   end.
 
 (* ---- / ---- *)
-Definition div2 (st : res * bool * val) (a : val) : res * bool * val :=
+Definition div2 (st : res) (a : val) : res :=
   match st with
-  | (RVal quot, alias, op0) =>
+  | RVal quot =>
       match norm_kind a quot with
-      | KFix => if as_int a =? 0 then (RCond CDivZero, false, op0)
-                else if grem (as_int quot) (as_int a) =? 0 then (RVal (VFix (gquot (as_int quot) (as_int a))), false, op0)
-                else (RVal (mkrat (as_int quot) (as_int a)), false, op0)
-      | KBig => if as_int a =? 0 then (RCond CDivZero, false, op0)
-                else if Z.rem (as_int quot) (as_int a) =? 0 then (RVal (VBig (Z.quot (as_int quot) (as_int a))), false, op0)
-                else (RVal (mkrat (as_int quot) (as_int a)), false, op0)
-      | KRat => if as_num a =? 0 then (RCond CDivZero, false, op0)
-                else let r := mkrat (as_num quot * as_den a) (as_den quot * as_num a) in
-                     let al := alias && is_rat quot in (RVal r, al, if al then r else op0)
-      | KInexact => (RVal VInexact, false, op0)
+      | KFix => if as_int a =? 0 then RCond CDivZero
+                else if grem (as_int quot) (as_int a) =? 0 then RVal (VFix (gquot (as_int quot) (as_int a)))
+                else RVal (mkrat (as_int quot) (as_int a))
+      | KBig => if as_int a =? 0 then RCond CDivZero
+                else if Z.rem (as_int quot) (as_int a) =? 0 then RVal (VBig (Z.quot (as_int quot) (as_int a)))
+                else RVal (mkrat (as_int quot) (as_int a))
+      | KRat => if as_num a =? 0 then RCond CDivZero
+                else RVal (mkrat (as_num quot * as_den a) (as_den quot * as_num a))     (* z.Quo into a fresh big.Rat *)
+      | KInexact => RVal VInexact
       end
   | _ => st
   end.
@@ -131,12 +124,10 @@ Definition m_div (args : list val) : out :=
                   else if z =? 1 then {| o_res := RVal a; o_args := [a] |}
                   else {| o_res := RVal (mkrat 1 z); o_args := [a] |}
       | VRat n d => if n =? 0 then {| o_res := RCond CDivZero; o_args := [a] |}
-                    else {| o_res := RVal (mkrat d n); o_args := [mkrat d n] |}     (* Inv into the operand *)
+                    else {| o_res := RVal (mkrat d n); o_args := [a] |}             (* z.Inv into a fresh big.Rat *)
       | VInexact => {| o_res := RVal VInexact; o_args := [a] |}
       end
-  | a :: rest =>
-      let '(r, _, op0) := fold_left div2 rest (RVal a, true, a) in
-      {| o_res := r; o_args := op0 :: rest |}
+  | a :: rest => {| o_res := fold_left div2 rest (RVal a); o_args := args |}
   end.
 
 (* ---- floor ceiling truncate round on integers ---- *)
@@ -244,15 +235,10 @@ Definition m_round (m : rounding) (args : list val) : out :=
     match norm_kind n d with
     | KFix => {| o_res := round_fix m (as_int n) (as_int d); o_args := orig |}
     | KBig =>
-        let r := round_big m (as_int n) (as_int d) in
-        (* round takes |.| of its bignum operands in place (zn.Abs(zn), zd.Abs(zd)) *)
-        let absop v := match v with VBig z => VBig (Z.abs z) | _ => v end in
-        {| o_res := r; o_args := match m with Round => map absop orig | _ => orig end |}
+        (* round takes |.| of its operands into fresh values (new(big.Int).Abs(zn)) *)
+        {| o_res := round_big m (as_int n) (as_int d); o_args := orig |}
     | KRat =>
-        let r := round_rat m (as_num n, as_den n) (as_num d, as_den d) in
-        (* ... and of its ratio operands *)
-        let absop v := match v with VRat a b => VRat (Z.abs a) b | _ => v end in
-        {| o_res := r; o_args := match m with Round => map absop orig | _ => orig end |}
+        {| o_res := round_rat m (as_num n, as_den n) (as_num d, as_den d); o_args := orig |}
     | KInexact => {| o_res := RVal VInexact; o_args := orig |}
     end in
   match args with
@@ -303,7 +289,7 @@ Definition m_inc (delta : Z) (args : list val) : out :=
   match args with
   | [VFix z] => {| o_res := RVal (VFix (wrap64 (z + delta))); o_args := args |}
   | [VBig z] => {| o_res := RVal (VBig (z + delta)); o_args := args |}
-  | [VRat n d] => {| o_res := RVal (mkrat (n + delta * d) d); o_args := [mkrat (n + delta * d) d] |}   (* SetFrac into the operand *)
+  | [VRat n d] => {| o_res := RVal (mkrat (n + delta * d) d); o_args := args |}   (* SetFrac into a fresh big.Rat *)
   | _ => {| o_res := RVal VInexact; o_args := args |}
   end.
 
